@@ -18,18 +18,24 @@
 //!   * `J inferred`            `inferred_descriptor()` re-encodes (Lean encoder) to the executed
 //!                             script and its output script (`Spec/Outputs`) is the spent one;
 //!   * `J nopanic interp-adv`  arbitrary (scriptPubKey, scriptSig, witness) shapes never panic.
+//!   * mode `one:<i>:<idx>`    (`-m` lines) `Prevouts::One(i, ..)` while input `idx` of a two-input
+//!                             transaction is spent (`two_inputs`): the Script-side oracle knows a
+//!                             BIP143 amount only for i = idx, a BIP341 digest only for i = idx + ACP;
+//!   * `C txdata-key` / `C txdata-segwit-script` / `C script-verdict`   hand-built segwit-v0 spends
+//!                             with an uncompressed key (`handbuilt_segwit_keys`): valid for Script,
+//!                             refused by the interpreter's own context rule (model level).
 //! Which (pubkey, signature) pairs verify is established by this file independently of the
 //! code under test (digest re-derived from the produced data, BIP341 rule for 65-byte
 //! signatures applied by hand) and sent to the Lean side as oracle tables.
 use std::collections::BTreeSet;
 
-use miniscript::bitcoin::hashes::Hash;
+use miniscript::bitcoin::hashes::{hash160, sha256, Hash};
 use miniscript::bitcoin::key::TapTweak;
 use miniscript::bitcoin::script::{Instruction, PushBytesBuf};
 use miniscript::bitcoin::secp256k1::{self, Message, Secp256k1, XOnlyPublicKey};
 use miniscript::bitcoin::sighash::{EcdsaSighashType, Prevouts, SighashCache, TapSighashType};
 use miniscript::bitcoin::taproot::{ControlBlock, LeafVersion, TapLeafHash};
-use miniscript::bitcoin::{transaction, Amount, PublicKey, ScriptBuf, Transaction, TxOut, Witness};
+use miniscript::bitcoin::{transaction, Amount, OutPoint, PublicKey, ScriptBuf, Sequence, Transaction, TxIn, TxOut, Txid, Witness};
 use miniscript::interpreter::{Error as IErr, HashLockType, Interpreter, KeySigPair, SatisfiedConstraint};
 use miniscript::miniscript::types::Base;
 use miniscript::Descriptor;
@@ -125,10 +131,15 @@ pub enum Mode {
     Assume,
     /// `Interpreter::iter_custom` with "real verification, but never for this key"
     Ban(Vec<u8>),
+    /// `Interpreter::iter` with `Prevouts::One(i, ..)` (the prevout of the SPENT input, filed under index `i`)
+    One(usize),
 }
 impl Mode {
     fn token(&self) -> String {
-        match self { Mode::Real => "real".into(), Mode::Assume => "assume".into(), Mode::Ban(pk) => format!("ban:{}", hex(pk)) }
+        match self {
+            Mode::Real => "real".into(), Mode::Assume => "assume".into(), Mode::Ban(pk) => format!("ban:{}", hex(pk)),
+            Mode::One(i) => format!("one:{}", i),
+        }
     }
 }
 
@@ -136,11 +147,13 @@ fn keysig_pk(k: &KeySigPair) -> Vec<u8> {
     match k { KeySigPair::Ecdsa(pk, _) => pk.to_bytes(), KeySigPair::Schnorr(pk, _) => pk.serialize().to_vec() }
 }
 
-/// `from_txdata` + the iterator of the chosen entry point
-pub fn run_interp_mode(tx: &Transaction, prevout: &TxOut, ss: &ScriptBuf, wit: &[Vec<u8>], mode: &Mode) -> Run {
+/// `from_txdata` + the iterator of the chosen entry point, for input `idx` of `tx` (`prevs` = the
+/// outputs spent by ALL inputs)
+pub fn run_interp_at(tx: &Transaction, idx: usize, prevs: &[TxOut], ss: &ScriptBuf, wit: &[Vec<u8>], mode: &Mode) -> Run {
     let witness = Witness::from_slice(wit);
+    let prevout = &prevs[idx];
     let r = std::panic::catch_unwind(std::panic::AssertUnwindSafe(|| {
-        let interp = match Interpreter::from_txdata(&prevout.script_pubkey, ss, &witness, tx.input[0].sequence, tx.lock_time) {
+        let interp = match Interpreter::from_txdata(&prevout.script_pubkey, ss, &witness, tx.input[idx].sequence, tx.lock_time) {
             Ok(i) => i,
             Err(e) => return Run { verdict: format!("reject:txdata:{}", err_class(&e)), cs: vec![], inner_script: false },
         };
@@ -148,13 +161,18 @@ pub fn run_interp_mode(tx: &Transaction, prevout: &TxOut, ss: &ScriptBuf, wit: &
             || interp.inferred_descriptor_string().starts_with("wpkh")
             || interp.inferred_descriptor_string().starts_with("sh(wpkh")
             || interp.inferred_descriptor_string().starts_with("rawtr"));
-        let prevouts = Prevouts::All(std::slice::from_ref(prevout));
+        let all = Prevouts::All(prevs);
+        let one;
+        let prevouts: &Prevouts<TxOut> = match mode {
+            Mode::One(i) => { one = Prevouts::One(*i, prevout.clone()); &one }
+            _ => &all,
+        };
         let iter = match mode {
-            Mode::Real => interp.iter(secp(), tx, 0, &prevouts),
+            Mode::Real | Mode::One(_) => interp.iter(secp(), tx, idx, prevouts),
             Mode::Assume => interp.iter_assume_sigs(),
             Mode::Ban(pk) => {
-                let (i, p, b) = (&interp, &prevouts, pk.clone());
-                interp.iter_custom(Box::new(move |ks: &KeySigPair| keysig_pk(ks) != b && i.verify_sig(secp(), tx, 0, p, ks)))
+                let (i, p, b) = (&interp, prevouts, pk.clone());
+                interp.iter_custom(Box::new(move |ks: &KeySigPair| keysig_pk(ks) != b && i.verify_sig(secp(), tx, idx, p, ks)))
             }
         };
         let mut cs = vec![];
@@ -167,6 +185,10 @@ pub fn run_interp_mode(tx: &Transaction, prevout: &TxOut, ss: &ScriptBuf, wit: &
         Run { verdict: "accept".into(), cs, inner_script }
     }));
     r.unwrap_or(Run { verdict: "PANIC".into(), cs: vec![], inner_script: false })
+}
+
+pub fn run_interp_mode(tx: &Transaction, prevout: &TxOut, ss: &ScriptBuf, wit: &[Vec<u8>], mode: &Mode) -> Run {
+    run_interp_at(tx, 0, std::slice::from_ref(prevout), ss, wit, mode)
 }
 
 pub fn run_interp(tx: &Transaction, prevout: &TxOut, ss: &ScriptBuf, wit: &[Vec<u8>]) -> Run {
@@ -185,6 +207,12 @@ const STD_SIGHASH: [u8; 6] = [1, 2, 3, 0x81, 0x82, 0x83];
 /// 65-byte Schnorr signatures ending in 0x00 are invalid (BIP341).  Also the taproot
 /// commitment of (control block, script bytes AS GIVEN) is checked and registered.
 pub fn register_all(out: &mut Out, tx: &Transaction, prevout: &TxOut, ss: &ScriptBuf, wit: &[Vec<u8>], pks: &[Vec<u8>]) {
+    register_at(out, tx, 0, std::slice::from_ref(prevout), ss, wit, pks)
+}
+
+/// the same for input `idx` of a transaction whose inputs spend `prevs`
+pub fn register_at(out: &mut Out, tx: &Transaction, idx: usize, prevs: &[TxOut], ss: &ScriptBuf, wit: &[Vec<u8>], pks: &[Vec<u8>]) {
+    let prevout = &prevs[idx];
     out.line("D clearsigs", "ok");
     let spk = &prevout.script_pubkey;
     let items = ss_items(ss).unwrap_or_default();
@@ -225,9 +253,9 @@ pub fn register_all(out: &mut Out, tx: &Transaction, prevout: &TxOut, ss: &Scrip
             let sig = match secp256k1::ecdsa::Signature::from_der(&e[..e.len() - 1]) { Ok(s) => s, Err(_) => continue };
             let ty = EcdsaSighashType::from_consensus(ht as u32);
             let digest: [u8; 32] = if segwit {
-                match cache.p2wsh_signature_hash(0, &code, prevout.value, ty) { Ok(h) => h.to_byte_array(), Err(_) => continue }
+                match cache.p2wsh_signature_hash(idx, &code, prevout.value, ty) { Ok(h) => h.to_byte_array(), Err(_) => continue }
             } else {
-                match cache.legacy_signature_hash(0, &code, ht as u32) { Ok(h) => h.to_byte_array(), Err(_) => continue }
+                match cache.legacy_signature_hash(idx, &code, ht as u32) { Ok(h) => h.to_byte_array(), Err(_) => continue }
             };
             for pk in pks {
                 if let Ok(pk_) = PublicKey::from_slice(pk) {
@@ -239,7 +267,7 @@ pub fn register_all(out: &mut Out, tx: &Transaction, prevout: &TxOut, ss: &Scrip
         }
     }
     if spk.is_p2tr() && spk.len() == 34 {
-        let prevouts = [prevout.clone()];
+        let prevouts: Vec<TxOut> = prevs.to_vec();
         let outkey = XOnlyPublicKey::from_slice(&spk.as_bytes()[2..34]).ok();
         // BIP341 signature parsing, by hand
         let parse = |e: &Vec<u8>| -> Option<(secp256k1::schnorr::Signature, TapSighashType)> {
@@ -252,7 +280,7 @@ pub fn register_all(out: &mut Out, tx: &Transaction, prevout: &TxOut, ss: &Scrip
         };
         if wit.len() == 1 {
             if let (Some(ok), Some((sig, ty))) = (outkey, parse(&wit[0])) {
-                if let Ok(d) = cache.taproot_key_spend_signature_hash(0, &Prevouts::All(&prevouts), ty) {
+                if let Ok(d) = cache.taproot_key_spend_signature_hash(idx, &Prevouts::All(&prevouts), ty) {
                     if secp().verify_schnorr(&sig, &Message::from_digest(d.to_byte_array()), &ok).is_ok() {
                         out.line(&format!("D dsig {} {} {}", DOM_TAPKEY, hex(&ok.serialize()), hex(&wit[0])), "ok");
                     }
@@ -269,7 +297,7 @@ pub fn register_all(out: &mut Out, tx: &Transaction, prevout: &TxOut, ss: &Scrip
             let leaf = TapLeafHash::from_script(&script, LeafVersion::TapScript);
             for e in &elems {
                 if let Some((sig, ty)) = parse(e) {
-                    if let Ok(d) = cache.taproot_script_spend_signature_hash(0, &Prevouts::All(&prevouts), leaf, ty) {
+                    if let Ok(d) = cache.taproot_script_spend_signature_hash(idx, &Prevouts::All(&prevouts), leaf, ty) {
                         for pk in pks {
                             if let Ok(x) = XOnlyPublicKey::from_slice(pk) {
                                 if secp().verify_schnorr(&sig, &Message::from_digest(d.to_byte_array()), &x).is_ok() {
@@ -286,28 +314,50 @@ pub fn register_all(out: &mut Out, tx: &Transaction, prevout: &TxOut, ss: &Scrip
 
 /* ------------------------------------------------------------------ signing helpers (mutation material) */
 
-struct Signer<'a> { desc: &'a Descriptor<PublicKey>, tx: &'a Transaction, prevout: &'a TxOut }
+/// DER signature + sighash byte of key `id` over input `idx` of `tx` for an explicit script code
+/// (BIP143 with `value` when `segwit`, the legacy digest otherwise)
+fn ecdsa_sign(tx: &Transaction, idx: usize, value: Amount, code: &ScriptBuf, segwit: bool, id: u32, ty: EcdsaSighashType) -> Option<Vec<u8>> {
+    let mut cache = SighashCache::new(tx);
+    let digest: [u8; 32] = if segwit {
+        cache.p2wsh_signature_hash(idx, code, value, ty).ok()?.to_byte_array()
+    } else {
+        cache.legacy_signature_hash(idx, code, ty.to_u32()).ok()?.to_byte_array()
+    };
+    let sig = secp().sign_ecdsa(&Message::from_digest(digest), &ast::secret(id));
+    let mut v = sig.serialize_der().to_vec();
+    v.push(ty.to_u32() as u8);
+    Some(v)
+}
+
+struct Signer<'a> { desc: &'a Descriptor<PublicKey>, tx: &'a Transaction, idx: usize, prevs: Vec<TxOut> }
 
 impl<'a> Signer<'a> {
-    /// ECDSA signature of key `id` with sighash type `ty` for this output type
-    fn ecdsa(&self, id: u32, ty: EcdsaSighashType) -> Option<Vec<u8>> {
-        let (code, segwit) = desc::presign_code(self.desc)?;
+    fn new(desc: &'a Descriptor<PublicKey>, tx: &'a Transaction, prevout: &TxOut) -> Self {
+        Signer { desc, tx, idx: 0, prevs: vec![prevout.clone()] }
+    }
+    /// ECDSA signature of key `id` with sighash type `ty` over an explicit script code
+    fn ecdsa_code(&self, id: u32, ty: EcdsaSighashType, code: &ScriptBuf, segwit: bool) -> Option<Vec<u8>> {
         let mut cache = SighashCache::new(self.tx);
         let digest: [u8; 32] = if segwit {
-            cache.p2wsh_signature_hash(0, &code, self.prevout.value, ty).ok()?.to_byte_array()
+            cache.p2wsh_signature_hash(self.idx, code, self.prevs[self.idx].value, ty).ok()?.to_byte_array()
         } else {
-            cache.legacy_signature_hash(0, &code, ty.to_u32()).ok()?.to_byte_array()
+            cache.legacy_signature_hash(self.idx, code, ty.to_u32()).ok()?.to_byte_array()
         };
         let sig = secp().sign_ecdsa(&Message::from_digest(digest), &ast::secret(id));
         let mut v = sig.serialize_der().to_vec();
         v.push(ty.to_u32() as u8);
         Some(v)
     }
+    /// ECDSA signature of key `id` with sighash type `ty` for this output type
+    fn ecdsa(&self, id: u32, ty: EcdsaSighashType) -> Option<Vec<u8>> {
+        let (code, segwit) = desc::presign_code(self.desc)?;
+        self.ecdsa_code(id, ty, &code, segwit)
+    }
     /// Schnorr script-path signature of key `id` for the leaf script given as bytes
     fn schnorr_leaf(&self, id: u32, leaf_script: &[u8], ty: TapSighashType) -> Option<Vec<u8>> {
         let leaf = TapLeafHash::from_script(&ScriptBuf::from_bytes(leaf_script.to_vec()), LeafVersion::TapScript);
         let mut cache = SighashCache::new(self.tx);
-        let d = cache.taproot_script_spend_signature_hash(0, &Prevouts::All(std::slice::from_ref(self.prevout)), leaf, ty).ok()?;
+        let d = cache.taproot_script_spend_signature_hash(self.idx, &Prevouts::All(&self.prevs), leaf, ty).ok()?;
         let kp = secp256k1::Keypair::from_secret_key(secp(), &ast::secret(id));
         let sig = secp().sign_schnorr_with_aux_rand(&Message::from_digest(d.to_byte_array()), &kp, &[5u8; 32]);
         let mut v = sig.as_ref().to_vec();
@@ -318,13 +368,19 @@ impl<'a> Signer<'a> {
         let tr = match self.desc { Descriptor::Tr(t) => t, _ => return None };
         let ik = key_id_full(tr.internal_key())? % 100;
         let mut cache = SighashCache::new(self.tx);
-        let d = cache.taproot_key_spend_signature_hash(0, &Prevouts::All(std::slice::from_ref(self.prevout)), ty).ok()?;
+        let d = cache.taproot_key_spend_signature_hash(self.idx, &Prevouts::All(&self.prevs), ty).ok()?;
         let kp = secp256k1::Keypair::from_secret_key(secp(), &ast::secret(ik)).tap_tweak(secp(), tr.spend_info().merkle_root());
         let sig = secp().sign_schnorr_with_aux_rand(&Message::from_digest(d.to_byte_array()), &kp.to_inner(), &[5u8; 32]);
         let mut v = sig.as_ref().to_vec();
         if ty != TapSighashType::Default { v.push(ty as u8); }
         Some(v)
     }
+}
+
+/// BIP143 script code of a key-hash output for the key given as bytes
+fn p2pkh_code(pk: &[u8]) -> ScriptBuf {
+    let mut c = vec![0x76, 0xa9, 0x14]; c.extend_from_slice(hash160::Hash::hash(pk).as_byte_array()); c.extend_from_slice(&[0x88, 0xac]);
+    ScriptBuf::from_bytes(c)
 }
 
 fn looks_like_sig(e: &[u8], tap: bool) -> bool {
@@ -393,6 +449,15 @@ fn inner_stack(spk: &ScriptBuf, ss: &ScriptBuf, wit: &[Vec<u8>]) -> Option<Vec<V
 fn dom_of(ctx: CtxK) -> u32 { match ctx { CtxK::Tap => DOM_TAPSCRIPT, CtxK::Segwitv0 => DOM_SEGWITV0, _ => DOM_LEGACY } }
 
 /// emit all judged lines for one (tx, scriptSig, witness)
+thread_local! {
+    /// (input index, outputs spent by all inputs) when the judged input is not input 0 of a
+    /// one-input transaction
+    static LOC: std::cell::RefCell<Option<(usize, Vec<TxOut>)>> = std::cell::RefCell::new(None);
+}
+fn loc(prevout: &TxOut) -> (usize, Vec<TxOut>) {
+    LOC.with(|l| l.borrow().clone()).unwrap_or((0, vec![prevout.clone()]))
+}
+const X_ONE: u8 = 8;
 const X_ASSUME: u8 = 1;
 const X_BAN: u8 = 2;
 const X_INFERRED: u8 = 4;
@@ -403,8 +468,9 @@ fn judge(out: &mut Out, case: &Case, tx: &Transaction, prevout: &TxOut, ss: &Scr
 
 /// lines of one entry point other than `iter`
 fn judge_mode(out: &mut Out, case: &Case, tx: &Transaction, prevout: &TxOut, ss: &ScriptBuf, wit: &[Vec<u8>], head: &str, info: &str, node: Option<&Node>, mode: &Mode, own: bool) {
-    let run = run_interp_mode(tx, prevout, ss, wit, mode);
-    let m = mode.token();
+    let (idx, prevs) = loc(prevout);
+    let run = run_interp_at(tx, idx, &prevs, ss, wit, mode);
+    let m = match mode { Mode::One(i) => format!("one:{}:{}", i, idx), _ => mode.token() };
     if run.verdict == "PANIC" {
         out.line(&format!("J nopanic interpreter-{} {} | {} PANIC", m, head, info), "ok");
         return;
@@ -424,16 +490,17 @@ fn judge_mode(out: &mut Out, case: &Case, tx: &Transaction, prevout: &TxOut, ss:
             let ctx = case.ctx;
             let ans = if run.verdict == "accept" { format!("accept {}", cs) } else { run.verdict.clone() };
             out.line(&format!("C interp-m {} {} {} {} {} {} {} {}", m, ctx.name(), dom_of(ctx), tx.version.0, tx.lock_time.to_consensus_u32(),
-                tx.input[0].sequence.to_consensus_u32(), interp_view(n, ctx == CtxK::Tap).wire(), desc::wit_wire(&st)), &ans);
+                tx.input[idx].sequence.to_consensus_u32(), interp_view(n, ctx == CtxK::Tap).wire(), desc::wit_wire(&st)), &ans);
         }
     }
 }
 
 fn judge_x(out: &mut Out, case: &Case, tx: &Transaction, prevout: &TxOut, ss: &ScriptBuf, wit: &[Vec<u8>], own: bool, tag: &str, leaf: Option<&Node>, extras: u8) -> bool {
-    let run = run_interp(tx, prevout, ss, wit);
+    let (idx, prevs) = loc(prevout);
+    let run = run_interp_at(tx, idx, &prevs, ss, wit, &Mode::Real);
     let pks = pk_bytes(&case.key_ids);
-    register_all(out, tx, prevout, ss, wit, &pks);
-    let head = format!("{} {} {} {} {} {}", tx.version.0, tx.lock_time.to_consensus_u32(), tx.input[0].sequence.to_consensus_u32(),
+    register_at(out, tx, idx, &prevs, ss, wit, &pks);
+    let head = format!("{} {} {} {} {} {}", tx.version.0, tx.lock_time.to_consensus_u32(), tx.input[idx].sequence.to_consensus_u32(),
         hex(prevout.script_pubkey.as_bytes()), hex(ss.as_bytes()), desc::wit_wire(wit));
     let info = format!("{} {}", case.info, tag);
     // input class (computed from the INPUT only).  The one input shape on which the interpreter
@@ -449,7 +516,7 @@ fn judge_x(out: &mut Out, case: &Case, tx: &Transaction, prevout: &TxOut, ss: &S
         } else { None };
     if matches!(&script_elem, Some(e) if e.is_empty() || e[..] == [1]) { out.count("c13 shape: boolean script element"); }
     if spk.is_p2tr() && wit.iter().any(|e| e.len() == 65 && e[64] == 0) { out.count("c13 shape: 65-byte schnorr sig ending in 00"); }
-    if tx.input[0].sequence.to_consensus_u32() == 0xffff_ffff && case.has_after { out.count("c13 shape: after() on a final input"); }
+    if tx.input[idx].sequence.to_consensus_u32() == 0xffff_ffff && case.has_after { out.count("c13 shape: after() on a final input"); }
     let class = if tx.version.0 < 2 && case.has_older { "csv-tx-version-1" } else { "plain" };
     if class != "plain" && run.verdict == "accept" { out.count("c13 accepted in class csv-tx-version-1"); }
     let head = format!("{} {}", class, head);
@@ -463,17 +530,35 @@ fn judge_x(out: &mut Out, case: &Case, tx: &Transaction, prevout: &TxOut, ss: &S
     out.line(&format!("J interp-sound {} {} | {}", head, run.verdict, info), "ok");
     out.count(&format!("interp verdict: {}", run.verdict.split(':').take(2).collect::<Vec<_>>().join(":")));
     if run.verdict == "accept" {
+        if (spk.is_p2wsh() || (spk.is_p2sh() && !wit.is_empty())) && wit.iter().any(|e| e.len() == 65 && e[0] == 4) {
+            out.count("observation: segwit-v0 spend with an uncompressed key behind a key HASH in the witness script accepted (consensus-valid, non-standard)");
+        }
         let cs = if run.cs.is_empty() { "-".to_string() } else { run.cs.join(",") };
         out.line(&format!("J constraints {} {} | {}", head, cs, info), "ok");
         // the reported constraints satisfy the spending condition of what was executed
         let is_tr = spk.is_p2tr();
         match (leaf.or(case.node), run.inner_script) {
+            // a raw key hash names no key: `Spec/MsSem.sem` gives it no spending condition (what the
+            // report says about it - hash160(pk) = h and a valid signature - is judged by `J constraints`)
+            (Some(n), true) if n.has_rawpkh() => out.count("c13 policy: not judged (raw key hash in the script)"),
             (Some(n), true) => out.line(&format!("J policy {} {} {} | {}", case.ctx.name(), n.wire(), cs, info), "ok"),
             (None, false) if is_tr && wit.len() == 1 =>
                 out.line(&format!("J policy-key {} {} | {}", hex(&spk.as_bytes()[2..34]), cs, info), "ok"),
             (None, false) if !is_tr => if let Some(k) = &case.single_key {
                 out.line(&format!("J policy-key {} {} | {}", hex(k), cs, info), "ok")
             },
+            // a bare `pk(K)` / `pkh(K)` miniscript IS a p2pk / p2pkh output: the interpreter takes its
+            // single-key arm; the report must name exactly that key, and satisfy the miniscript
+            (Some(n), false) => {
+                let key = match n { Node::Check(b) => match &**b { Node::PkK(k) | Node::PkH(k) => Some(*k), _ => None }, _ => None };
+                match key {
+                    Some(k) if !is_tr => {
+                        out.line(&format!("J policy-key {} {} | {}", hex(&ast::full_key(k).to_bytes()), cs, info), "ok");
+                        out.line(&format!("J policy {} {} {} | {}", case.ctx.name(), n.wire(), cs, info), "ok");
+                    }
+                    _ => out.count("c13 policy: not judged (single-key arm of an unexpected node)"),
+                }
+            }
             _ => out.count("c13 policy: not judged (unknown leaf)"),
         }
     }
@@ -486,6 +571,9 @@ fn judge_x(out: &mut Out, case: &Case, tx: &Transaction, prevout: &TxOut, ss: &S
             judge_mode(out, case, tx, prevout, ss, wit, &head, &info, node_m, &Mode::Ban(pk), false);
         }
     }
+    if extras & X_ONE != 0 {
+        for i in 0..prevs.len() { judge_mode(out, case, tx, prevout, ss, wit, &head, &info, node_m, &Mode::One(i), false); }
+    }
     if extras & X_INFERRED != 0 { judge_inferred(out, case, tx, prevout, ss, wit, &script_elem, &info); }
     // model correspondence (script outputs only)
     let node = leaf.or(case.node);
@@ -496,7 +584,7 @@ fn judge_x(out: &mut Out, case: &Case, tx: &Transaction, prevout: &TxOut, ss: &S
                 format!("accept {}", if run.cs.is_empty() { "-".to_string() } else { run.cs.join(",") })
             } else { run.verdict.clone() };
             out.line(&format!("C interp {} {} {} {} {} {} {}", ctx.name(), dom_of(ctx), tx.version.0, tx.lock_time.to_consensus_u32(),
-                tx.input[0].sequence.to_consensus_u32(), interp_view(n, ctx == CtxK::Tap).wire(), desc::wit_wire(&st)), &ans);
+                tx.input[idx].sequence.to_consensus_u32(), interp_view(n, ctx == CtxK::Tap).wire(), desc::wit_wire(&st)), &ans);
         }
     }
     run.verdict == "accept"
@@ -695,9 +783,39 @@ fn leaf_of<'a>(leaves: &'a [Node], wit: &[Vec<u8>]) -> Option<&'a Node> {
     leaves.iter().find(|n| ast::to_ms::<PublicKey, miniscript::Tap>(n).map(|m| m.encode().as_bytes() == &sb[..]).unwrap_or(false))
 }
 
+/// `TxSat` plus the raw-key-hash lookups (the shared satisfier has none): the key behind a raw
+/// pkh atom is always known, its signature exactly when the key's id is among the assets
+struct RawSat<'a>(&'a TxSat);
+
+fn raw_full(h: &hash160::Hash) -> Option<u32> { (0..10u32).chain(100..104).find(|id| ast::raw_pkh(*id) == *h) }
+fn raw_x(h: &hash160::Hash) -> Option<u32> { (200..210u32).find(|id| ast::raw_pkh(*id) == *h) }
+
+impl<'a> miniscript::Satisfier<PublicKey> for RawSat<'a> {
+    fn lookup_ecdsa_sig(&self, pk: &PublicKey) -> Option<miniscript::bitcoin::ecdsa::Signature> { self.0.lookup_ecdsa_sig(pk) }
+    fn lookup_tap_key_spend_sig(&self, pk: &PublicKey) -> Option<miniscript::bitcoin::taproot::Signature> { self.0.lookup_tap_key_spend_sig(pk) }
+    fn lookup_tap_leaf_script_sig(&self, pk: &PublicKey, l: &TapLeafHash) -> Option<miniscript::bitcoin::taproot::Signature> { self.0.lookup_tap_leaf_script_sig(pk, l) }
+    fn lookup_raw_pkh_pk(&self, h: &hash160::Hash) -> Option<PublicKey> { raw_full(h).map(ast::full_key) }
+    fn lookup_raw_pkh_x_only_pk(&self, h: &hash160::Hash) -> Option<XOnlyPublicKey> { raw_x(h).map(ast::xonly_key) }
+    fn lookup_raw_pkh_ecdsa_sig(&self, h: &hash160::Hash) -> Option<(PublicKey, miniscript::bitcoin::ecdsa::Signature)> {
+        let pk = ast::full_key(raw_full(h)?);
+        Some((pk, self.0.lookup_ecdsa_sig(&pk)?))
+    }
+    fn lookup_raw_pkh_tap_leaf_script_sig(&self, hl: &(hash160::Hash, TapLeafHash)) -> Option<(XOnlyPublicKey, miniscript::bitcoin::taproot::Signature)> {
+        let id = raw_x(&hl.0)?;
+        Some((ast::xonly_key(id), self.0.lookup_tap_leaf_script_sig(&ast::full_key(id), &hl.1)?))
+    }
+    fn lookup_sha256(&self, h: &sha256::Hash) -> Option<[u8; 32]> { self.0.lookup_sha256(h) }
+    fn lookup_hash256(&self, h: &miniscript::hash256::Hash) -> Option<[u8; 32]> { self.0.lookup_hash256(h) }
+    fn lookup_ripemd160(&self, h: &miniscript::bitcoin::hashes::ripemd160::Hash) -> Option<[u8; 32]> { self.0.lookup_ripemd160(h) }
+    fn lookup_hash160(&self, h: &hash160::Hash) -> Option<[u8; 32]> { self.0.lookup_hash160(h) }
+    fn check_older(&self, n: miniscript::bitcoin::relative::LockTime) -> bool { miniscript::Satisfier::<PublicKey>::check_older(self.0, n) }
+    fn check_after(&self, n: miniscript::bitcoin::absolute::LockTime) -> bool { miniscript::Satisfier::<PublicKey>::check_after(self.0, n) }
+}
+
 fn satisfy(out: &mut Out, desc_: &Descriptor<PublicKey>, sat: &TxSat, mall: bool, info: &str) -> Option<(Vec<Vec<u8>>, ScriptBuf)> {
     let res = std::panic::catch_unwind(std::panic::AssertUnwindSafe(|| {
-        if mall { desc_.get_satisfaction_mall(sat) } else { desc_.get_satisfaction(sat) }
+        let rs = RawSat(sat);
+        if mall { desc_.get_satisfaction_mall(&rs) } else { desc_.get_satisfaction(&rs) }
     }));
     match res {
         Ok(Ok(x)) => Some(x),
@@ -708,6 +826,48 @@ fn satisfy(out: &mut Out, desc_: &Descriptor<PublicKey>, sat: &TxSat, mall: bool
             None
         }
     }
+}
+
+/// The same spend as input 1 of a TWO-input transaction (different amounts), re-signed: every
+/// signature the satisfier issued is replaced by one over the new transaction at index 1.  Judged
+/// under `Prevouts::All` and under `Prevouts::One(0, ..)` / `One(1, ..)`.
+fn two_inputs(out: &mut Out, case: &Case, sat: &TxSat, ss: &ScriptBuf, wit: &[Vec<u8>], leaf: Option<&Node>, sane: bool, tag: &str) {
+    let d = case.desc;
+    let mut tx2 = sat.tx.clone();
+    tx2.input.insert(0, TxIn {
+        previous_output: OutPoint { txid: Txid::from_byte_array([0x22; 32]), vout: 3 },
+        script_sig: ScriptBuf::new(), sequence: Sequence::from_consensus(0xffff_fffd), witness: Witness::new(),
+    });
+    let mut other_spk = vec![0x00, 0x14]; other_spk.extend_from_slice(&[0x33; 20]);
+    let prevs = vec![TxOut { value: Amount::from_sat(50_000), script_pubkey: ScriptBuf::from_bytes(other_spk) }, sat.prevout.clone()];
+    let signer = Signer { desc: d, tx: &tx2, idx: 1, prevs: prevs.clone() };
+    let leaf_script: Option<Vec<u8>> = if sat.prevout.script_pubkey.is_p2tr() && wit.len() >= 2 { Some(wit[wit.len() - 2].clone()) } else { None };
+    let mut map: Vec<(Vec<u8>, Vec<u8>)> = vec![];
+    for (pk, sig) in sat.issued.borrow().iter() {
+        let new = if pk.len() == 32 {
+            let id = match XOnlyPublicKey::from_slice(pk).ok().and_then(|x| crate::msops::key_id_x(&x)) { Some(i) => i % 100, None => continue };
+            let ty = if sig.len() == 65 { match TapSighashType::from_consensus_u8(sig[64]) { Ok(t) => t, Err(_) => continue } } else { TapSighashType::Default };
+            match &leaf_script { Some(ls) => signer.schnorr_leaf(id, ls, ty), None => None }
+        } else {
+            let id = match PublicKey::from_slice(pk).ok().and_then(|k| key_id_full(&k)) { Some(i) => i % 100, None => continue };
+            signer.ecdsa(id, EcdsaSighashType::All)
+        };
+        if let Some(n) = new { map.push((sig.clone(), n)); }
+    }
+    if let Some(ks) = &sat.tap_key_sig {
+        if let Some(n) = signer.schnorr_key(ks.sighash_type) { map.push((ks.to_vec(), n)); }
+    }
+    let re = |e: &Vec<u8>| -> Vec<u8> { map.iter().find(|(o, _)| o == e).map(|(_, n)| n.clone()).unwrap_or_else(|| e.clone()) };
+    let ssi = match ss_items(ss) { Some(x) => x, None => return };
+    let ss2 = ss_build(&ssi.iter().map(re).collect::<Vec<_>>());
+    let wit2: Vec<Vec<u8>> = wit.iter().map(re).collect();
+    LOC.with(|l| *l.borrow_mut() = Some((1, prevs.clone())));
+    judge_x(out, case, &tx2, &sat.prevout, &ss2, &wit2, sane, &format!("{} two-inputs:idx1", tag), leaf, X_ONE);
+    // and the ORIGINAL signatures (made for another transaction): must be refused
+    if !map.is_empty() {
+        judge_x(out, case, &tx2, &sat.prevout, ss, wit, false, &format!("{} two-inputs:stale-sigs", tag), leaf, 0);
+    }
+    LOC.with(|l| *l.borrow_mut() = None);
 }
 
 /// all work for one descriptor x assets x mode
@@ -726,6 +886,7 @@ fn do_case(out: &mut Out, rng: &mut Rng, case: &Case, leaves: &[Node], assets: &
     let leaf = leaf_of(leaves, &wit);
     let tagb = format!("{} {} base", mode, assets.wire());
     judge_x(out, case, &sat.tx, &sat.prevout, &ss, &wit, sane, &tagb, leaf, X_ASSUME | X_BAN | X_INFERRED);
+    if special { two_inputs(out, case, &sat, &ss, &wit, leaf, sane, &format!("{} {}", mode, assets.wire())); }
 
     // ---- lock-time / sequence / version variants: re-sign over the changed transaction
     let (mut afters, mut olders) = (vec![], vec![]);
@@ -758,7 +919,7 @@ fn do_case(out: &mut Out, rng: &mut Rng, case: &Case, leaves: &[Node], assets: &
     }
 
     // ---- mutations of (scriptSig, witness) under the base transaction
-    let signer = Signer { desc: d, tx: &sat.tx, prevout: &sat.prevout };
+    let signer = Signer::new(d, &sat.tx, &sat.prevout);
     let ssi = match ss_items(&ss) { Some(x) => x, None => return };
     let n_ss = ssi.len();
     let all: Vec<Vec<u8>> = ssi.iter().cloned().chain(wit.iter().cloned()).collect();
@@ -842,12 +1003,53 @@ fn do_case(out: &mut Out, rng: &mut Rng, case: &Case, leaves: &[Node], assets: &
     }
     // extra element on the bottom / top
     { let mut v = all.clone(); v.insert(n_ss, vec![1]); muts.push(("extra-bottom".into(), v, if n_ss == n && n_ss > 0 { n_ss + 1 } else { n_ss })); }
+    // ---- input class "another VALID key": a key of the spend replaced by key 7 (same encoding),
+    // alone (`pair<i>:pk7alone`, also judged in assume mode) and together with key 7's valid
+    // signature over the digest the key-hash arm would use for THAT key (`pair<i>:sig7+pk7`)
+    {
+        use miniscript::descriptor::DescriptorType as DT;
+        let dt = d.desc_type();
+        let known = pk_bytes(&case.key_ids);
+        for i in 0..n {
+            if structural.contains(&i) || !known.contains(&all[i]) { continue; }
+            let pk7: Vec<u8> = match all[i].len() {
+                33 => ast::full_key(7).to_bytes(), 65 => ast::full_key(107).to_bytes(),
+                32 => ast::xonly_key(7).serialize().to_vec(), _ => continue };
+            if pk7 == all[i] { continue; }
+            { let mut v = all.clone(); v[i] = pk7.clone(); muts.push((format!("pair{}:pk7alone", i), v, n_ss)); }
+            if i == 0 || ((i - 1) < n_ss) != (i < n_ss) || structural.contains(&(i - 1)) { continue; }
+            let sig7 = if tap {
+                leaf_script.as_ref().and_then(|ls| signer.schnorr_leaf(7, ls, TapSighashType::Default))
+            } else if matches!(dt, DT::Wpkh | DT::ShWpkh) {
+                signer.ecdsa_code(7, EcdsaSighashType::All, &p2pkh_code(&pk7), true)
+            } else { signer.ecdsa(7, EcdsaSighashType::All) };
+            if let Some(s7) = sig7 { let mut v = all.clone(); v[i] = pk7.clone(); v[i - 1] = s7; muts.push((format!("pair{}:sig7+pk7", i), v, n_ss)); }
+        }
+        // ---- nested segwit: redeem script AND witness replaced consistently (only the P2SH hash
+        // of the scriptPubKey stands between this and an accepted spend)
+        if dt == DT::ShWsh {
+            let mut r = vec![0x00, 0x20]; r.extend_from_slice(sha256::Hash::hash(&[0x51]).as_byte_array());
+            muts.push(("pair-nested:op1".into(), vec![r, vec![0x51]], 1));
+        }
+        if dt == DT::ShWpkh {
+            let pk7 = ast::full_key(7).to_bytes();
+            let mut r = vec![0x00, 0x14]; r.extend_from_slice(hash160::Hash::hash(&pk7).as_byte_array());
+            if let Some(s7) = signer.ecdsa_code(7, EcdsaSighashType::All, &p2pkh_code(&pk7), true) {
+                muts.push(("pair-nested:wpkh7".into(), vec![r, s7, pk7], 1));
+            }
+        }
+    }
+    // ---- input class "the WRONG stack is non-empty" on an otherwise valid spend, every output type
+    { let mut v = vec![vec![1u8]]; v.extend(all.iter().cloned()); muts.push(("xs:ss-prepend-01".into(), v, n_ss + 1)); }
+    { let mut v = all.clone(); v.insert(n_ss, vec![1]); muts.push(("xs:wit-add-01".into(), v, n_ss)); }
     // an annex on a taproot witness
     if tap { let mut v = all.clone(); v.push(vec![0x50, 0x01]); muts.push(("annex".into(), v, n_ss)); }
     // Fisher-Yates, keep n_mut
     for i in (1..muts.len()).rev() { let j = rng.below(i + 1); muts.swap(i, j); }
     // the interesting classes first, whatever the shuffle says
-    muts.sort_by_key(|(name, _, _)| !(name.starts_with("append00") || name.starts_with("explicit00") || name.starts_with("srepl")) as u8);
+    muts.sort_by_key(|(name, _, _)| if name.starts_with("pair") || name.starts_with("xs:") { 0u8 }
+        else if name.starts_with("append00") || name.starts_with("explicit00") || name.starts_with("srepl") { 1 } else { 2 });
+    let n_mut = n_mut.max(muts.iter().filter(|(n, _, _)| n.starts_with("pair") || n.starts_with("xs:")).count() + n_mut / 2);
     muts.truncate(n_mut);
     let mut mut_no = 0usize;
     for (name, items, k) in muts {
@@ -859,7 +1061,7 @@ fn do_case(out: &mut Out, rng: &mut Rng, case: &Case, leaves: &[Node], assets: &
         let leaf2 = leaf_of(leaves, &w2);
         mut_no += 1;
         let acc = judge_x(out, case, &sat.tx, &sat.prevout, &ss2, &w2, false, &format!("{} {} mut:{}", mode, assets.wire(), name), leaf2,
-            if mut_no % 3 == 0 { X_ASSUME } else { 0 });
+            if mut_no % 3 == 0 || name.starts_with("pair") { X_ASSUME } else { 0 });
         if acc { out.count("c13 mutation accepted by interpreter"); }
     }
     // a non-minimal push in the scriptSig (same items)
@@ -870,10 +1072,92 @@ fn do_case(out: &mut Out, rng: &mut Rng, case: &Case, leaves: &[Node], assets: &
     }
 }
 
+/* ------------------------------------------------------------------ hand-built segwit-v0 spends: key forms */
+
+/// Segwit v0 spends that are VALID for Script (`C script-verdict`: `Spec/Spend.verifySpend` accepts -
+/// BIP143's "compressed keys only" is Core's WITNESS_PUBKEYTYPE relay-policy flag, not consensus)
+/// but use an uncompressed key, next to their compressed twins: p2wpkh / sh-wpkh of the key
+/// (`C txdata-key`: model `Interp.pkFromSlice`) and p2wsh / sh-wsh of witness scripts naming the key
+/// (`C txdata-segwit-script`: model `Interp.segwitScriptAdmits`).  The demand is the library's own
+/// context rule (the interpreter parses segwit scripts in `Segwitv0`, keys with
+/// `require_compressed`), judged at model level; soundness w.r.t. Script (`J interp-sound`) holds
+/// whatever the interpreter answers here.
+fn handbuilt_segwit_keys(out: &mut Out) {
+    let tx = make_tx(2, 0, 0xffff_fffe);
+    let value = Amount::from_sat(VALUE);
+    let all = EcdsaSighashType::All;
+    let emit = |out: &mut Out, spk: ScriptBuf, ss: ScriptBuf, wit: Vec<Vec<u8>>, pks: &[Vec<u8>], info: &str, cline: String| {
+        let prevout = TxOut { value, script_pubkey: spk };
+        let run = run_interp(&tx, &prevout, &ss, &wit);
+        register_all(out, &tx, &prevout, &ss, &wit, pks);
+        let head = format!("plain {} {} {} {} {} {}", tx.version.0, tx.lock_time.to_consensus_u32(), tx.input[0].sequence.to_consensus_u32(),
+            hex(prevout.script_pubkey.as_bytes()), hex(ss.as_bytes()), desc::wit_wire(&wit));
+        if run.verdict == "PANIC" { out.line(&format!("J nopanic interpreter {} | {} PANIC", head, info), "ok"); return; }
+        out.line(&format!("C script-verdict {} - | {}", head, info), "accept");
+        out.line(&format!("J interp-sound {} {} | {}", head, run.verdict, info), "ok");
+        out.line(&cline, &run.verdict);
+        out.count(&format!("c13 handbuilt segwit key form: {}", run.verdict));
+        if run.verdict == "accept" && !prevout.script_pubkey.is_p2pkh() && wit.iter().any(|e| e.len() == 65 && e[0] == 4) {
+            out.count("observation: segwit-v0 spend with an uncompressed key behind a key HASH in the witness script accepted (consensus-valid, non-standard)");
+        }
+    };
+    let p2sh_of = |redeem: &[u8]| -> (ScriptBuf, ScriptBuf) {
+        let r = ScriptBuf::from_bytes(redeem.to_vec());
+        (ScriptBuf::new_p2sh(&r.script_hash()), ss_build(&[redeem.to_vec()]))
+    };
+    for key in [100u32, 0, 101, 1] {
+        let pkb = ast::full_key(key).to_bytes();
+        let pks = pk_bytes(&[key % 100, 2]);
+        // ---- key-hash programs
+        let code = p2pkh_code(&pkb);
+        let mut prog = vec![0x00, 0x14]; prog.extend_from_slice(hash160::Hash::hash(&pkb).as_byte_array());
+        if let Some(sig) = ecdsa_sign(&tx, 0, value, &code, true, key % 100, all) {
+            let cl = format!("C txdata-key 1 {}", hex(&pkb));
+            emit(out, ScriptBuf::from_bytes(prog.clone()), ScriptBuf::new(), vec![sig.clone(), pkb.clone()], &pks, &format!("handbuilt wpkh key {}", key), cl.clone());
+            let (spk, ss) = p2sh_of(&prog);
+            emit(out, spk, ss, vec![sig, pkb.clone()], &pks, &format!("handbuilt sh-wpkh key {}", key), cl);
+        }
+        // the same key in p2pkh: no compressedness demanded
+        if let Some(sig) = ecdsa_sign(&tx, 0, value, &code, false, key % 100, all) {
+            emit(out, code.clone(), ss_build(&[sig, pkb.clone()]), vec![], &pks, &format!("handbuilt pkh key {}", key), format!("C txdata-key 0 {}", hex(&pkb)));
+        }
+        // ---- witness scripts naming the key: pk(K), multi(1,K,K2) signed by K2, and_v(v:pk(K2),pk_h(K))
+        let k2 = 2u32;
+        let nodes: Vec<(Node, Vec<u32>)> = vec![
+            (Node::Check(Box::new(Node::PkK(key))), vec![key]),
+            (Node::Multi(1, vec![key, k2]), vec![k2]),
+            (Node::AndV(Box::new(Node::Verify(Box::new(Node::Check(Box::new(Node::PkK(k2)))))), Box::new(Node::Check(Box::new(Node::PkH(key))))), vec![key, k2]),
+        ];
+        for (ni, (node, signers)) in nodes.iter().enumerate() {
+            // script bytes through the Legacy context (the encoding does not depend on the context)
+            let script = match ast::to_ms::<PublicKey, miniscript::Legacy>(node) { Ok(m) => m.encode(), Err(_) => continue };
+            let sigs: Vec<Vec<u8>> = signers.iter().filter_map(|id| ecdsa_sign(&tx, 0, value, &script, true, *id % 100, all)).collect();
+            if sigs.len() != signers.len() { continue; }
+            let mut wit: Vec<Vec<u8>> = match ni {
+                0 => vec![sigs[0].clone()],
+                1 => vec![vec![], sigs[0].clone()],
+                _ => vec![sigs[0].clone(), pkb.clone(), sigs[1].clone()],   // pk_h(K): sig, key; then pk(K2)'s sig on top
+            };
+            wit.push(script.to_bytes());
+            let mut prog = vec![0x00, 0x20]; prog.extend_from_slice(sha256::Hash::hash(script.as_bytes()).as_byte_array());
+            // pk_h decodes to a RAW key hash (the script does not name the key): model AST accordingly
+            let wire = if ni == 2 {
+                Node::AndV(Box::new(Node::Verify(Box::new(Node::Check(Box::new(Node::PkK(k2)))))), Box::new(Node::Check(Box::new(Node::RawPkH(key))))).wire()
+            } else { node.wire() };
+            let cl = format!("C txdata-segwit-script {}", wire);
+            emit(out, ScriptBuf::from_bytes(prog.clone()), ScriptBuf::new(), wit.clone(), &pks, &format!("handbuilt wsh {} key {}", node.wire(), key), cl.clone());
+            let (spk, ss) = p2sh_of(&prog);
+            emit(out, spk, ss, wit, &pks, &format!("handbuilt sh-wsh {} key {}", node.wire(), key), cl);
+        }
+    }
+}
+
 /* ------------------------------------------------------------------ driver */
 
 fn dassets_subsets(nodes: &[&Node], cap: usize) -> Vec<DAssets> {
-    let full = DAssets::full(nodes);
+    let mut full = DAssets::full(nodes);
+    // the keys behind raw key hashes sign too
+    for n in nodes { let mut r = vec![]; n.rawpkhs(&mut r); for h in r { full.keys.insert(h % 100); } }
     let mut v = vec![full.clone()];
     for k in full.keys.iter() { let mut a = full.clone(); a.keys.remove(k); v.push(a); }
     for p in full.pre.iter() { let mut a = full.clone(); a.pre.remove(p); v.push(a); }
@@ -887,6 +1171,7 @@ fn dassets_subsets(nodes: &[&Node], cap: usize) -> Vec<DAssets> {
 fn key_ids(nodes: &[&Node], extra: &[u32]) -> Vec<u32> {
     let mut ks = vec![];
     for n in nodes { n.keys(&mut ks); }
+    for n in nodes { n.rawpkhs(&mut ks); }
     let mut v: Vec<u32> = ks.iter().map(|k| k % 100).chain(extra.iter().cloned()).collect();
     v.push(7); // a key that is not part of the descriptor ("another key's signature")
     v.sort(); v.dedup();
@@ -931,7 +1216,17 @@ pub fn run(out: &mut Out, thorough: bool, seed: u64) {
         let mut nodes: Vec<Node> = corpus_v0.clone();
         let frags = ast::enumerate(ctx, &atoms, if thorough { 4 } else { 3 }, if thorough { 24 } else { 5 }, &mut rng);
         nodes.extend(frags.iter().filter(|t| t.base == Base::B).map(|t| t.node.clone()));
-        for node in &nodes {
+        // the shared designated fragments (every tier): fewer asset subsets / mutations each
+        let n_wide = nodes.len();
+        for dn in ast::dimension_corpus(ctx) { if !nodes.contains(&dn) { nodes.push(dn); } }
+        if ctx == CtxK::Segwitv0 {
+            // a raw key hash whose key is UNCOMPRESSED: the script names no key, so the Segwitv0 context
+            // admits it; the 65-byte key only shows up in the witness (see `handbuilt_segwit_keys`)
+            nodes.push(Node::Check(Box::new(Node::RawPkH(100))));
+            nodes.push(Node::AndV(Box::new(Node::Verify(k(0))), Box::new(Node::Check(Box::new(Node::RawPkH(101))))));
+        }
+        for (ni, node) in nodes.iter().enumerate() {
+            let dim = ni >= n_wide;
             for w in &wraps {
                 if let Some(d) = desc::build_desc(*w, node, 0) {
                     n_desc += 1;
@@ -943,9 +1238,10 @@ pub fn run(out: &mut Out, thorough: bool, seed: u64) {
                     };
                     let hl = { let (mut a, mut o) = (vec![], vec![]); for n in [node] { n.locks(&mut a, &mut o); } (!a.is_empty(), !o.is_empty()) };
                     let case = Case { desc: &d, node: Some(node), ctx, key_ids: key_ids(&[node], &[]), info: format!("{}", d), sane, has_after: hl.0, has_older: hl.1, single_key: None };
-                    for (ai, a) in dassets_subsets(&[node], if thorough { 8 } else { 3 }).into_iter().enumerate() {
+                    let (cap, nm) = if dim { (if thorough { 4 } else { 2 }, if thorough { 16 } else { 6 }) } else { (if thorough { 8 } else { 3 }, n_mut) };
+                    for (ai, a) in dassets_subsets(&[node], cap).into_iter().enumerate() {
                         let mut prev = None;
-                        for mall in [false, true] { do_case(out, &mut rng, &case, &[], &a, mall, n_mut, &mut prev, ai == 0); }
+                        for mall in [false, true] { do_case(out, &mut rng, &case, &[], &a, mall, nm, &mut prev, ai == 0 && (!dim || thorough || *w != Wrap::ShWsh)); }
                     }
                 }
             }
@@ -982,6 +1278,8 @@ pub fn run(out: &mut Out, thorough: bool, seed: u64) {
         ];
         frags.extend(ast::enumerate(ctx, &atoms, if thorough { 3 } else { 2 }, if thorough { 30 } else { 8 }, &mut rng)
             .into_iter().filter(|t| t.base == Base::B).map(|t| t.node));
+        let n_wide = frags.len();
+        for dn in ast::dimension_corpus(ctx) { if !frags.contains(&dn) { frags.push(dn); } }
         if let Some(d) = desc::build_tr(3, &[]) {
             for sa in [false, true] {
                 let mut a = DAssets::default(); a.tapkey = true; a.schnorr_all = sa;
@@ -994,7 +1292,7 @@ pub fn run(out: &mut Out, thorough: bool, seed: u64) {
         let mut trees: Vec<Vec<Node>> = frags.iter().map(|f| vec![f.clone()]).collect();
         for _ in 0..n_tr {
             let nl = 2 + rng.below(3);
-            trees.push((0..nl).map(|_| frags[rng.below(frags.len())].clone()).collect());
+            trees.push((0..nl).map(|_| { let m = if rng.below(4) == 0 { frags.len() } else { n_wide }; frags[rng.below(m)].clone() }).collect());
         }
         for (i, leaves) in trees.iter().enumerate() {
             if let Some(d) = desc::build_tr(3, leaves) {
@@ -1012,9 +1310,11 @@ pub fn run(out: &mut Out, thorough: bool, seed: u64) {
             }
         }
     }
+    // ---- segwit v0 and the form of the key
+    handbuilt_segwit_keys(out);
     // ---- arbitrary shapes: nothing may panic
     adversarial(out, &mut rng, if thorough { 30_000 } else { 3_000 });
     out.note("descriptors", n_desc.to_string());
     out.note("distinct_nontrivial", n_desc.to_string());
-    out.note("domain", "corpus + all B-typed fragments to depth 2/3 (quota-thinned) in wsh / sh-wsh / sh / bare, pkh / wpkh / sh-wpkh, tr key path and tr script path (single leaves and random trees) x asset subsets x {nonmall, mall} x (base tx; re-signed variants of version / nLockTime / nSequence around every lock; mutations of scriptSig and witness: drop, duplicate, swap, replace by empty / 1 / 2 / 0x00 / 32 zero bytes / junk DER / other keys' and other sighash types' valid signatures, flipped sighash byte, flipped bit, 0x00 / 0x01 appended to Schnorr signatures, annex, extra element, non-minimal push)".into());
+    out.note("domain", "corpus + all B-typed fragments to depth 2/3 (quota-thinned) in wsh / sh-wsh / sh / bare, pkh / wpkh / sh-wpkh, tr key path and tr script path (single leaves and random trees) x asset subsets x {nonmall, mall} x (base tx; re-signed variants of version / nLockTime / nSequence around every lock; mutations of scriptSig and witness: drop, duplicate, swap, replace by empty / 1 / 2 / 0x00 / 32 zero bytes / junk DER / other keys' and other sighash types' valid signatures, flipped sighash byte, flipped bit, 0x00 / 0x01 appended to Schnorr signatures, annex, extra element, non-minimal push; another valid key alone / with its valid signature in every key-hash position; consistently replaced redeem script + witness in nested segwit; 01 added to the wrong stack on every output type) + the shared dimension corpus in every stream (incl. uncompressed keys in bare / sh / multi and raw key hashes) + every first-subset spend again as input 1 of a two-input transaction (Prevouts::All, One(0), One(1), stale index-0 signatures) + hand-built segwit-v0 spends with uncompressed keys".into());
 }
